@@ -146,6 +146,33 @@ pub fn check_value<T: Encode<()>>(ty: &str, v: &T, show: &str, rep: &mut Report,
             judge(rep, "Writer<io::Cursor<&mut [u8]>>", r, c.content(), c.intact(), &reference, cap, show, replay);
         }
     }
+    // the std::io adapter over a writer that accepts a few bytes at a time and reports
+    // `Interrupted` now and then (io::Write::write_all semantics: retry, fill up to the capacity)
+    for cap in [0usize, 1, len / 2, len.saturating_sub(1), len, len + 1] {
+        rep.eval();
+        let r = mon::guarded(|| {
+            let mut w = Writer::new(ScriptIo { buf: Vec::new(), cap, calls: 0 });
+            let r = Encoder::new(&mut w).encode(v).map(|_| ()).map_err(|e| e.is_write());
+            let inner = w.into_inner();
+            (r, inner.buf)
+        });
+        match r {
+            Err(p) => fail(rep, "Writer<scripted io::Write>", "panic", p.message, replay),
+            Ok((r, got)) => {
+                let fits = len <= cap;
+                let is_prefix = got.len() <= len && got[..] == reference[..got.len()];
+                match (r, fits) {
+                    (Ok(()), true) if got == reference => {}
+                    (Ok(()), true) => fail(rep, "Writer<scripted io::Write>", "bytes", format!("an interrupted / short-writing io::Write received {} bytes, the encoding of {} has {}", got.len(), show, len), replay),
+                    (Err(true), false) if is_prefix => {}
+                    (Err(true), false) => fail(rep, "Writer<scripted io::Write>", "prefix", format!("after the write error the io::Write holds {} bytes that are not a prefix of the encoding", got.len()), replay),
+                    (Err(false), false) => fail(rep, "Writer<scripted io::Write>", "error-class", "overflow reported as a non-write error".into(), replay),
+                    (Ok(()), false) => fail(rep, "Writer<scripted io::Write>", "fits", format!("success although the {} byte encoding exceeds capacity {}", len, cap), replay),
+                    (Err(_), true) => fail(rep, "Writer<scripted io::Write>", "fits", format!("failure although the {} byte encoding of {} fits capacity {} (short writes and Interrupted must be retried)", len, show, cap), replay),
+                }
+            }
+        }
+    }
     // fixed array cursors
     macro_rules! arr {
         ($n:expr) => {{
@@ -189,6 +216,29 @@ pub fn check_value<T: Encode<()>>(ty: &str, v: &T, show: &str, rep: &mut Report,
 }
 
 #[allow(clippy::too_many_arguments)]
+/// io::Write of bounded capacity that takes 1-3 bytes per call and answers `Interrupted`
+/// on every third call.
+struct ScriptIo {
+    buf: Vec<u8>,
+    cap: usize,
+    calls: usize,
+}
+
+impl std::io::Write for ScriptIo {
+    fn write(&mut self, b: &[u8]) -> std::io::Result<usize> {
+        self.calls += 1;
+        if self.calls % 3 == 0 {
+            return Err(std::io::ErrorKind::Interrupted.into());
+        }
+        let n = b.len().min(self.cap - self.buf.len()).min(1 + self.calls % 3);
+        self.buf.extend_from_slice(&b[..n]);
+        Ok(n)
+    }
+    fn flush(&mut self) -> std::io::Result<()> {
+        Ok(())
+    }
+}
+
 fn judge(rep: &mut Report, sink: &str, r: Result<(Result<(), bool>, usize), mon::PanicReport>, content: &[u8], intact: bool, reference: &[u8], cap: usize, show: &str, replay: &[String]) {
     let len = reference.len();
     let fits = len <= cap;
